@@ -176,6 +176,10 @@ class SimState:
         return self.ports[pid]
 
 
+REMOVABLE_ATTRS = ('min', 'max', 'integer', 'step', 'choices', 'unit', 'tag', 'transform_read', 'transform_write',
+                   'history_interval', 'history_retention', 'virtual', 'online')
+
+
 def gen_slave_op(rng, st, protect=()):
     """one mutation of the device: -> op tail (without dt) or None"""
     r = rng.random()
@@ -192,6 +196,14 @@ def gen_slave_op(rng, st, protect=()):
         n, v = rand_attr_change(rng, p)
         p[n] = v
         return ['sa', pid, n, v]
+    if r < 0.82 and ids:             # an optional attribute disappears from a port
+        pid = rng.choice(ids)
+        p = st.ports[pid]
+        names = [n for n in REMOVABLE_ATTRS if n in p]
+        if names:
+            n = rng.choice(names)
+            p.pop(n)
+            return ['sdel', pid, n]
     if r < 0.86 and len(ids) < 4:
         return ['sadd', copy.deepcopy(st.new_port())]
     if r < 0.92 and len(ids) > 1:
@@ -262,6 +274,11 @@ def gen_e2e(rng, mode=None):
            'flags': ['listen'] + (['webhooks'] if rng.random() < 0.2 else []) + (['reverse'] if rng.random() < 0.1 else []),
            'lat': [rng.choice([1, 3, 10, 30, 100, 300, 800]) for _ in range(rng.randint(1, 6))],
            'ports': [copy.deepcopy(p) for p in st.ports.values()], 'ops': []}
+ # a second slave whose name starts with the first one's name (dev1 / dev10): same port ids, its own values
+    second = None
+    if mode != 'push' and rng.random() < 0.15:
+        st2 = SimState(rng, rng.randint(1, 3))
+        second = job['second'] = {'name': rng.choice(['dev10', 'dev1x', 'dev1_b']), 'ports': [copy.deepcopy(p) for p in st2.ports.values()]}
     ops = job['ops']
     n = rng.randint(4, 28)
     down = False
@@ -289,9 +306,17 @@ def gen_e2e(rng, mode=None):
                 ops.append([3000, 'sync'])
             else:
                 ops.extend(gen_master_write(rng, st))
+        elif second is not None and r < 0.40:
+            p2 = rng.choice(second['ports'])
+            if p2['enabled']:
+                ops.append([dt, 'sv2', p2['id'], rand_value(rng, p2['type'])])
         else:
             op = gen_slave_op(rng, st)
-            if op:
+            if op and op[0] == 'sdel' and mode == 'poll' and not down:
+                # alone in a poll interval: nothing else changes on the device between two polls
+                w = job['poll'] * 1000 + 2500
+                ops.extend([[w, 'wait'], [0] + op, [w, 'wait']])
+            elif op:
                 ops.append([dt] + op)
     ops.append([rng.choice([0, 100, 3000]), 'up'])
     ops.append([0, 'sync'])
@@ -464,6 +489,7 @@ def eval_coq(ctx, name, header, shards, evals):
 # ----------------------------------------------------------------------------------------------------------------------
 # specification oracle in Python (used while shrinking; the verdict comes from the Coq one)
 
+NO_FALLBACK_ATTRS = ('min', 'max', 'integer', 'step', 'choices')
 MASTER_ATTRS = ('id', 'tag', 'expression', 'history_interval', 'history_retention', 'online', 'last_sync', 'expires')
 
 
@@ -486,6 +512,8 @@ def view_port_problems(name, shown, sp):
             if v != sp.get(n[7:]):
                 out.append(n)
         elif sp.get(n) is not None and v != sp.get(n):
+            out.append(n)
+        elif n in NO_FALLBACK_ATTRS and sp.get(n) is None:     # shown although the slave does not have it (any more)
             out.append(n)
     for n, v in sp.items():
         if n in ('id', 'value', 'pending_value') or v is None:
@@ -585,6 +613,11 @@ def e2e_problems(job, res, name='dev1'):
                      else 'listen-session-expired-before-offline' if job['mode'] == 'listen' and lost else None)
             out.append({'kind': 'view', 'sync': k, 'ports': pr, 'quiescent': bool(s.get('quiescent')), 'cause': cause,
                         'events_lost_with_expired_session_while_online': lost})
+        if s.get('second'):
+            pr2 = view_problems(s['second']['name'], s['second']['master_ports'], s['second']['slave_ports'])
+            if pr2:
+                out.append({'kind': 'view', 'sync': k, 'ports': pr2, 'quiescent': bool(s.get('quiescent')),
+                            'cause': 'other-slave-with-prefix-name', 'slave': s['second']['name']})
     for pid, d, sh in order_cases(job, res):
         if dedup(d) != dedup(sh):
             out.append({'kind': 'order', 'port': pid, 'delivered': dedup(d), 'reported': dedup(sh)})
@@ -597,6 +630,8 @@ def spec_cases_c12(pool, job, res, name='dev1'):
     for k, s in enumerate(res.get('syncs', [])):
         if isinstance(s['master_ports'], list):
             out.append((enc_view(pool, name, s['master_ports'], s['slave_ports']), ('view', k)))
+        if s.get('second') and isinstance(s['second']['master_ports'], list):
+            out.append((enc_view(pool, s['second']['name'], s['second']['master_ports'], s['second']['slave_ports']), ('view2', k)))
     for pid, d, sh in order_cases(job, res):
         out.append(('(SOrder %s %s)' % (coq.lst(d, pool.val), coq.lst(sh, pool.val)), ('order', pid)))
     return out
@@ -647,7 +682,9 @@ def shrink_e2e(job, still_fails, budget=12):
 
 def describe(job):
     return '%s%s lat=%s ports=%s ops: %s' % (
-        job.get('mode'), '(%ss)' % job['poll'] if job.get('mode') == 'poll' else '', job.get('lat'),
+        job.get('mode'), '(%ss)' % job['poll'] if job.get('mode') == 'poll' else '',
+        (job.get('lat'), 'second slave %s %s' % (job['second']['name'], [p['id'] for p in job['second']['ports']])) if job.get('second')
+        else job.get('lat'),
         [p['id'] for p in job['ports']],
         ' ; '.join('+%d %s' % (op[0], ' '.join(json.dumps(x) if not isinstance(x, str) else x for x in op[1:]))
                    for op in job['ops']))
@@ -774,7 +811,8 @@ def run_e2e_batch(ctx, res, jobs, label, tags):
         dist['device_events'] = dist.get('device_events', 0) + r.get('slave_events', 0)
         dist['master_value_changes'] = dist.get('master_value_changes', 0) + len(r.get('vc', []))
         for s in r['syncs']:
-            if not s.get('quiescent') and not view_problems('dev1', s['master_ports'], s['slave_ports']):
+            if not s.get('quiescent') and not view_problems('dev1', s['master_ports'], s['slave_ports']) and not (
+                    s.get('second') and view_problems(s['second']['name'], s['second']['master_ports'], s['second']['slave_ports'])):
                 res['tie_failures'].append({'note': 'no quiescent state within 120 virtual seconds at a sync point '
                                                     '(online=%s)' % s.get('online'), 'script': describe(job), 'source': tags[j]})
         if r.get('net_refused', 0) and len(r['syncs']) >= 1 and r.get('slave_events', 0) >= 2:
